@@ -243,6 +243,11 @@ func (core *JApiCore) checkPathSchemaPropertyUserType(typeName string) error {
 		return fmt.Errorf(`%s (%s)`, jerr.UserTypeNotFound, typeName)
 	}
 
+	// A type of the "any" or "empty" notation has no schema to look into.
+	if _, ok := ut.Schema.(*catalog.ExchangePseudoSchema); ok {
+		return nil
+	}
+
 	rootNode, err := ut.Schema.GetAST()
 	if err != nil {
 		return errors.New(jerr.RuntimeFailure)
